@@ -242,8 +242,16 @@ def run(ck):
             if kind.startswith('numpy:'):
                 # structurally singular: LAPACK meets an exactly zero pivot, inv must raise
                 if not raised:
-                    ck.violation({'kind': 'numpy-branch-singular-input-accepted', 'input': m,
-                                  'call': 'linalg._USE_NUMPY_LINALG_INV = True; linalg.inv(A)'})
+                    rp = {'kind': 'numpy-branch-singular-input-accepted', 'input': m, 'stream': kind,
+                          'call': 'linalg._USE_NUMPY_LINALG_INV = True; linalg.inv(A)',
+                          'result': np.asarray(X, dtype=float).tolist()}
+                    big = (np.all(np.isfinite(X)) and
+                           float(np.max(np.abs(X))) * float(np.max(np.abs(A))) >= 2.0 ** 45)
+                    if kind == 'numpy:dup_row' and big:
+                        # zero pivot hidden by rounding inside LAPACK: listed finding K1n
+                        ck.violation(rp, known_id='K1n')
+                    else:
+                        ck.violation(rp)
                 continue
             singular, rep, swapped = exact_forward(m)
             if singular:
